@@ -92,10 +92,21 @@ def build_case(rng, tier, kind):
     return evs
 
 
+def corpus():
+    """histories that once failed (known_findings.json 'fixed'), replayed first on every run"""
+    dup = {"k": "create", "table": "t1", "cols": [("a", "int", 0), ("a", "int", 0)]}
+    ok = {"k": "create", "table": "t2", "cols": [("a", "int", 0), ("b", "int", 0)]}
+    obs = [("tables", ["t1", "t2", "sys_schema"]), ("dump",)]
+    return [("corpus", [("stmt", dup)] + obs +
+             [("stmt", {"k": "insert", "table": "t1", "cols": [], "rows": [[1, 2], [3, 4]]})] + obs +
+             [("stmt", ok), ("stmt", {"k": "insert", "table": "t2", "cols": [], "rows": [[1, 2], [3, 4]]})] + obs +
+             [("stmt", {"k": "insert", "table": "t2", "cols": ["a", "a"], "rows": [[5, 6]]})] + obs)]
+
+
 def generate(rng, tier):
     plan = [("deep", 1), ("small", 24), ("split", 12), ("catalog", 4)] if tier == "quick" else \
            [("deep", 1), ("small", 150), ("split", 60), ("catalog", 20), ("large", 3)]
-    cases = []
+    cases = corpus()
     for kind, n in plan:
         for _ in range(n):
             cases.append((kind, build_case(rng, tier, kind)))
